@@ -30,7 +30,11 @@ def one(path):
     try:
         a = run(['git', '-C', wt, 'apply', '--whitespace=nowarn', os.path.join(path, 'patch.diff')])
         if a.returncode:
-            return sid, 'patch does not apply', ''
+            # later repairs moved the context: try with fuzz before giving up
+            a = run(['patch', '-p1', '--fuzz=3', '--no-backup-if-mismatch', '-i', os.path.join(path, 'patch.diff')],
+                    cwd=wt)
+            if a.returncode:
+                return sid, 'patch does not apply', ''
         out = []
         caught = False
         for c in checks:
@@ -52,7 +56,7 @@ def main():
     if '--jobs' in args:
         jobs = int(args[args.index('--jobs') + 1])
     paths = sorted(p for p in glob.glob('/verif/seeded/*') if os.path.isdir(p) and
-                   (only is None or os.path.basename(p).split('-')[0] in only))
+                   (only is None or os.path.basename(p).split('-')[0] in only or os.path.basename(p) in only))
     tally = {}
     with concurrent.futures.ThreadPoolExecutor(jobs) as ex:
         for sid, verdict, detail in ex.map(one, paths):
